@@ -1,5 +1,6 @@
 import GixModel.Lemmas.C56
 import GixModel.Lemmas.C56Toy
+import GixModel.Lemmas.C11
 /-
 C56 — Streaming compression and hashing do not depend on chunking.  PROPERTY THEOREMS ONLY.
 
@@ -182,5 +183,41 @@ theorem object_hash_agree_write {S : Type} (f : BlockFn) (innerWrite : S → Byt
   refine ⟨hw', h1, ?_⟩
   rw [h2]
   simp only [computeHash, List.flatten_cons, Sha1.update_append]
+
+/-! ### end to end with the loose store (Model/C11.lean): the id a write returns -/
+
+/-- `loose::Store::write_stream` / `write_buf` / typed `write` (a `hash::Write<deflate::Write<file>>` fed with
+the loose header and then the body in ANY pieces) return the id `compute_hash` computes for the body in
+one call — which is also what `compute_stream_hash` gives for the same bytes read from a stream.
+For every compressor satisfying the contract and every block function. -/
+theorem write_stream_id_is_compute_hash {C : Compressor} {IsStream : Bytes → Bytes → Prop} (K : CompressorOk C IsStream)
+    (f : BlockFn) (fuelW : Writer C.σ → Bytes → Nat) (fuelF : Writer C.σ → Nat)
+    (hW : ∀ w c, K.rank w.comp c.length .none < fuelW w c) (hF : ∀ w, K.rank w.comp 0 .finish < fuelF w)
+    (k : Kind) (chunks : List Bytes) :
+    ∃ w, C11.storeWrite C f fuelW fuelF (looseHeader k chunks.flatten.length :: chunks) = .ok w ∧
+      w.id = computeHash f k chunks.flatten ∧
+      computeStreamHash f k chunks.flatten chunks.flatten.length = .ok w.id := by
+  obtain ⟨w, h1, h2, _, _⟩ := C11.storeWrite_ok K f fuelW fuelF hW hF (looseHeader k chunks.flatten.length :: chunks)
+  have hid : w.id = computeHash f k chunks.flatten := by
+    rw [h2]; simp only [computeHash, List.flatten_cons, Sha1.update_append]
+  refine ⟨w, h1, hid, ?_⟩
+  rw [object_hash_agree_stream f k chunks.flatten chunks.flatten.length (Nat.le_refl _), List.take_length, hid]
+
+/-- … hence the id does not depend on how the stream was cut into pieces -/
+theorem write_stream_id_chunking_independent {C : Compressor} {IsStream : Bytes → Bytes → Prop} (K : CompressorOk C IsStream)
+    (f : BlockFn) (fuelW : Writer C.σ → Bytes → Nat) (fuelF : Writer C.σ → Nat)
+    (hW : ∀ w c, K.rank w.comp c.length .none < fuelW w c) (hF : ∀ w, K.rank w.comp 0 .finish < fuelF w)
+    (k : Kind) (chunks₁ chunks₂ : List Bytes) (h : chunks₁.flatten = chunks₂.flatten) :
+    ∃ w₁ w₂, C11.storeWrite C f fuelW fuelF (looseHeader k chunks₁.flatten.length :: chunks₁) = .ok w₁ ∧
+      C11.storeWrite C f fuelW fuelF (looseHeader k chunks₂.flatten.length :: chunks₂) = .ok w₂ ∧ w₁.id = w₂.id := by
+  obtain ⟨w₁, a1, a2, _⟩ := write_stream_id_is_compute_hash K f fuelW fuelF hW hF k chunks₁
+  obtain ⟨w₂, b1, b2, _⟩ := write_stream_id_is_compute_hash K f fuelW fuelF hW hF k chunks₂
+  exact ⟨w₁, w₂, a1, b1, by rw [a2, b2, h]⟩
+
+-- instantiated with the codec of `contracts_satisfiable`
+example (f : BlockFn) (chunks : List Bytes) :=
+  write_stream_id_is_compute_hash Toy.compressorOk f
+    (fun w c => Toy.compressorOk.rank w.comp c.length .none + 1) (fun w => Toy.compressorOk.rank w.comp 0 .finish + 1)
+    (fun _ _ => Nat.lt_succ_self _) (fun _ => Nat.lt_succ_self _) .blob chunks
 
 end GixModel.Props.C56
